@@ -305,6 +305,13 @@ func ledgerFamily(run *core.Run, o ledgerFamilyOpts) {
 		runs = append(runs, tokenCheck(run, o.prop)...)
 		swapCheck(run, o.prop)
 	}
+	if o.tokens || o.bridge {
+		br, err := bridgeTracedRun()
+		if err != nil {
+			core.Fatal("%v", err)
+		}
+		runs = append(runs, *br)
+	}
 	run.Set("lab_walks", walkStats)
 	run.Set("lab_walk_methods_accepted", methods)
 	events := 0
